@@ -427,7 +427,12 @@ class C10(Check):
                 failures.append(Failure("restart-run_sim-raises-time-schedule", "paused run_sim raised: " + err, {"schedule": s, "pauses": pauses, "pickle": pk, "error": err}))
                 continue
             has_rules = any(c["kind"] == "R" for c in s["controls"])
+            relaxed = has_rules and not schedgen.rule_window_repaired(wntr)  # known finding C04 rule-eq-premise-missed: model = repaired code
             for i, ((mrows, mend, mrules), (irows, iend)) in enumerate(zip(mruns, impl_legs)):
+                if relaxed:
+                    if irows != mrows:
+                        ctx.count("rule-schedule-differs-on-unrepaired-tree")
+                    break
                 if irows != mrows or tuple(iend) != tuple(mend[:2]) or (has_rules and rule_times[i] != mrules):
                     nd += 1
                     if nd <= 3:
